@@ -2,8 +2,8 @@
 #
 #  PROVED (coq/theories/Properties/C04.v over VM/Opcode.v, VM/Limits.v):
 #     opcode field round trips; register allocator fits its 8-bit field for every history and fails
-#     only with a CompilationPanic; in-range requests encode exactly; the register limit is a compile
-#     error; REFUTED for every other limit (string panics escape; jump offsets and pc wrap in int16).
+#     only with a CompilationPanic; in-range requests encode exactly; a request beyond ANY limit is a
+#     compile error (full statement since the round-2 repairs); check_code sound; parser depth <= 201.
 #  TIED to the Go code on every run (gvh-limits enc / lim vs the extracted model):
 #     the real mkType1..7 + Get* accessors on all 8-bit field values, boundary+random 16-bit values;
 #     the real ircomp.ConstantCompiler on hand-built IR around every limit.
@@ -459,7 +459,7 @@ HUGE_BIG_QUICK = {"loop_body": [40000], "straight": [33000], "if_jump": [33000],
 HUGE_SIZES_THOROUGH = [2, 100, 200, 250, 253, 254, 255, 256, 257, 258, 300, 511, 512, 1000, 8190, 16383, 16384, 32766, 32767,
                        32768, 33000, 40000, 65534, 65535, 65536, 65537, 70000, 131072]
 # templates whose cost is quadratic or that are pointless beyond a size
-HUGE_CAP = {"consts_spread": 4000, "locals_live": 1000, "upvalues": 1000, "params": 1000, "multi_assign": 1000, "multi_assign_call": 1000, "args": 70000,
+HUGE_CAP = {"tbc": 33000, "consts_spread": 4000, "locals_live": 1000, "upvalues": 1000, "params": 1000, "multi_assign": 1000, "multi_assign_call": 1000, "args": 70000,
             "rets": 70000, "tbc_nested": 1000, "long_number": 70000, "elseif": 3000}
 
 
@@ -510,7 +510,7 @@ def gen_sources(rng, tier):
             src, exp = fn(d)
             out.append(("nest", "%s:%d" % (name, d), src.encode(), exp))
     if tier == "quick":
-        for name, d in (("paren", 160000), ("neg", 160000), ("method", 10000), ("if", 20000)):
+        for name, d in (("paren", 160000), ("neg", 160000), ("method", 10000), ("if", 20000), ("call", 150000)):
             src, exp = NEST[name](d)
             out.append(("nest", "%s:%d" % (name, d), src.encode(), exp))
     sizes = HUGE_SIZES_QUICK if tier == "quick" else HUGE_SIZES_THOROUGH
@@ -648,7 +648,12 @@ class LuaRunner:
 
     def run(self, lines, timeout, maxstack=None, mem_kb=6 * 1024 * 1024):
         env = {"GVH_MAXSTACK": str(maxstack)} if maxstack else {}
-        return vlib.run_lines_resilient(self.bin, ["lua"], lines, per_case_timeout=timeout, env=env, mem_kb=mem_kb)
+        # a fresh child every 1500 cases: the harness process keeps ~50 kB per finished runtime, which over tens of
+        # thousands of cases looked like an out-of-memory crash of an innocent case (false alarm of the thorough tier)
+        out = []
+        for i in range(0, len(lines), 1500):
+            out += vlib.run_lines_resilient(self.bin, ["lua"], lines[i:i + 1500], per_case_timeout=timeout, env=env, mem_kb=mem_kb)
+        return out
 
 
 def parse_lua(out):
@@ -689,6 +694,8 @@ def classify_known(ck, fam, label, res, nbytes):
         return pick("C04-metamethod-go-recursion")
     if fam in ("nest", "corpus-nest") and st == "CRASH" and ("stack overflow" in msg or "stack exceeds" in msg):
         m = re.search(r":(\d+)$", label)
+        if m and int(m.group(1)) >= 100000 and label.split(":")[0] in ("concat", "call", "method", "dot", "index", "binop", "and"):
+            return pick("C04-ast-chain-go-recursion")
         if m and int(m.group(1)) >= 100000:
             return pick("C04-parser-go-recursion")
     return None
@@ -848,10 +855,11 @@ def run(tier, seed):
     ck.cov["exhaustive"] = False
     ck.cov["split"] = {
         "proved": "opcode field round trips (all types, all fields); register allocator invariant over all histories; in-range limits "
-                  "encode exactly; register limit is a compile error; refutations: string panics at FillTable/EtcLookup/KIndex/ClTrunc, "
-                  "int16 truncation of jump offsets and pc",
+                  "encode exactly; every limit (registers, constants, closures, etc/fill index, close-stack height, function length) is a "
+                  "compile error; pc and jumps exact in a function that passed the length check; check_code sound; parser nesting <= 201 frames",
         "tied_to_go": "real mkType1..7/Get*/SetOffset/SetKIndex/LoadSmallInt (every 8-bit field value exhaustively, 16-bit boundary+random); "
-                      "real ircomp.ConstantCompiler on hand-built IR around each limit; register allocator histories",
+                      "real ircomp.ConstantCompiler on hand-built IR around each limit; register allocator histories; check_code on every compiled unit; "
+                      "parser accept/reject boundary on nesting templates vs the skeleton model",
         "explored_only": "scanner/parser/astcomp/VM/standard library through child processes: random and corrupted sources, nesting and "
                          "size templates with known results, library functions x edge-value tuples, recursion/explosion templates",
         "unreachable_for_proof": "Go stack exhaustion, out-of-memory, the Go runtime's fatal errors",
@@ -889,7 +897,7 @@ def explore(ck, lr, tier):
         cases.append((fam, label, src, exp, ""))
     lines = []
     for i, (fam, label, src, exp, opts) in enumerate(cases):
-        lines.append("s%d %s cpu=300000000 mem=2000000000 %s" % (i, lua_hex(src), opts))
+        lines.append("s%d %s cpu=300000000 mem=500000000 %s" % (i, lua_hex(src), opts))
     ck.log("source streams: %d cases" % len(lines))
     outs = lr.run(lines, timeout=(30 if quick else 600), maxstack=(32 << 20) if quick else None)
     for i, (fam, label, src, exp, opts) in enumerate(cases):
